@@ -796,6 +796,14 @@ func (h *c02) run(c *c02Case) bool {
 				}
 			}
 		}
+		if dlv.Code == 0 && a == (symAddr{'c', 0}) {
+			// c0 is the recipient of every send: when it signs itself, what it sends comes straight back
+			for _, m := range c.core.Msgs {
+				if (m.Eth && m.TxType == 0) || (!m.Eth && m.Type == 1) {
+					out -= int64(m.Content)
+				}
+			}
+		}
 		if d := before[a].bal.Sub(after[a].bal); !d.Equal(sdkmath.NewInt(out)) {
 			fail("C02/balance/unexpected-debit", fmt.Sprintf("signer %s paid %s, expected %d (DeliverTx code %d)", a, d, out, dlv.Code))
 		}
